@@ -448,14 +448,20 @@ def _kernel(vec, n_cond):
     return -0.5 * h @ d @ h
 
 
+def _psd_sqrt(k):
+    """symmetric positive semi-definite square root by the spectral theorem (eigenvalues clipped at 0).  scipy's sqrtm (Schur
+    form) loses about half the digits on SINGULAR matrices, and double-centred kernels always are singular: on 0/1
+    categorical RDMs its result was off by 3e-5, where the library returns 1/sqrt(5) to 1e-8."""
+    k = (np.asarray(k, dtype=float) + np.asarray(k, dtype=float).T) / 2
+    w, u = np.linalg.eigh(k)
+    return (u * np.sqrt(np.clip(w, 0, None))) @ u.T
+
+
 def _fidelity(k1, k2):
-    from scipy.linalg import sqrtm
-    with warnings.catch_warnings(), np.errstate(all='ignore'):
-        warnings.simplefilter('ignore')
-        s1 = np.real(sqrtm(k1))
-        inner = s1 @ k2 @ s1
-        inner = (inner + inner.T) / 2
-        return float(np.real(np.trace(sqrtm(inner))))
+    s1 = _psd_sqrt(k1)
+    inner = s1 @ k2 @ s1
+    inner = (inner + inner.T) / 2
+    return float(np.sum(np.sqrt(np.clip(np.linalg.eigvalsh(inner), 0, None))))
 
 
 def _spec_bures(x, y, n_cond, metric):
